@@ -103,3 +103,19 @@ Print Assumptions C09_bloom_attach_rebuilds_handle.
 Print Assumptions C09_bloom_export_differs_after_attach.
 Print Assumptions C09_topk_attach_rebuilds_handle.
 Print Assumptions C09_topk_inserts_depend_on_store_only.
+
+From GX.Proofs Require Import NonVacuity.
+(* C09: evaluated: create, update through the creating handle, re-attach through the metadata key:
+   the same handle comes back and Count through it sees the update *)
+Example C09_attach_evaluated :
+  match rcms_new [] 2 3 k_a k_m with
+  | (Ok h, s1) =>
+      match rcms_update cpos1 s1 h [7] 5 with
+      | (Ok h', s2) => rcms_attach s2 k_m = Ok (mkRcms 2 3 0 k_a k_m) /\
+                       rcms_count cpos1 s2 (mkRcms 2 3 0 k_a k_m) [7] = Ok 5 /\
+                       rcms_count cpos1 s2 h' [7] = Ok 5
+      | _ => False
+      end
+  | _ => False
+  end.
+Proof. vm_compute. repeat split; reflexivity. Qed.
